@@ -20,6 +20,8 @@ func init() {
 		Assumptions: []string{"generated getters GetX() return field X"},
 		Run:         runC14,
 		Controls: []Control{
+			{Name: "revert-F37-mask-on-items", File: "pkg/trait/openclosepb/model.go", Old: "\tallPositions := m.positions.List() // already sorted by ID aka Direction ordinal", New: "\tallPositions := m.positions.List(opts...) // already sorted by ID aka Direction ordinal", Expect: "R14.11"},
+			{Name: "revert-F38-gate-waits-for-seed", File: "pkg/trait/openclosepb/model.go", Old: "\t\t\tif !change.SeedValue {\n\t\t\t\t// updates only follow a complete seed: an empty collection has no seed events at all\n\t\t\t\tseenAll = true\n\t\t\t}\n", New: "", Expect: "R14.12"},
 			{Name: "drop-read-mask", File: "pkg/trait/onoffpb/model_server.go", Old: "return s.model.GetOnOff(resource.WithReadMask(req.ReadMask))", New: "return s.model.GetOnOff()", Expect: "R14.1"},
 			{Name: "drop-updates-only", File: "pkg/trait/onoffpb/model_server.go", Old: "resource.WithReadMask(request.ReadMask), resource.WithUpdatesOnly(request.UpdatesOnly)) {\n\t\tchange := &traits.PullOnOffResponse_Change{", New: "resource.WithReadMask(request.ReadMask)) {\n\t\tchange := &traits.PullOnOffResponse_Change{", Expect: "R14.2"},
 			{Name: "empty-name", File: "pkg/trait/onoffpb/model_server.go", Old: "\t\t\tName:       request.Name,\n\t\t\tChangeTime: timestamppb.New(update.ChangeTime),\n\t\t\tOnOff:      update.Value,", New: "\t\t\tChangeTime: timestamppb.New(update.ChangeTime),\n\t\t\tOnOff:      update.Value,", Expect: "R14.3"},
@@ -234,6 +236,10 @@ func runC14(c *an.Ctx) {
 	r148(c)
 	// what the trait servers rely on from the layers below: a subscriber that is registered keeps receiving (the bus
 	// never drops a live listener), and every write that is stored is published - and what is returned is what was stored
+	r1411(c)
+	r1412(c)
+	c.Min("R14.11", 1)
+	c.Min("R14.12", 1)
 	registryRebuild(c, "R14.9")
 	r041as(c, "R14.10")
 	c.Min("R14.9", 1)
@@ -879,4 +885,136 @@ func r148(c *an.Ctx) {
 		c.Check(bad == "", rule, name+"|an error is reported only when nothing was written", where, fmt.Sprintf("%d write(s)", len(ws)),
 			bad+": the resource write in this function cannot be undone by returning an error afterwards (an interceptor cannot abort it), so a request answered with an error status has still changed what Get returns and has been published to Pull streams. Reject before the write, or restore the old value inside the interceptor (proto.Reset/Merge(new, old)) before reporting")
 	}
+}
+
+// ---- R14.11 / R14.12: aggregate reads over a collection ---------------------------------------
+
+// r1411: a model Get that assembles ONE message out of a collection's items applies the caller's read mask to
+// that message; handing the read options to Collection.List applies the mask to the items, whose fields it
+// does not describe.
+func r1411(c *an.Ctx) {
+	const rule = "R14.11"
+	n := 0
+	for _, fn := range c.Prog.FuncsIn("pkg/trait") {
+		if c.Prog.IsGenerated(fn.Pos()) || fn.Parent() != nil || fn.Signature.Recv() == nil || !strings.HasPrefix(fn.Name(), "Get") || !fn.Signature.Variadic() {
+			continue
+		}
+		last := fn.Params[len(fn.Params)-1]
+		if !strings.Contains(last.Type().String(), "pkg/resource.ReadOption") {
+			continue
+		}
+		res := fn.Signature.Results()
+		if res.Len() == 0 {
+			continue
+		}
+		ptr, isPtr := res.At(0).Type().(*types.Pointer)
+		if !isPtr {
+			continue
+		}
+		// builds its result as a literal of the result type?
+		builds := false
+		an.Instrs(fn, func(in ssa.Instruction) {
+			if al, ok := in.(*ssa.Alloc); ok && al.Heap && types.Identical(al.Type(), ptr) {
+				builds = true
+			}
+		})
+		lists := an.CallsIn(fn, func(s string) bool { return strings.HasSuffix(s, "pkg/resource.Collection).List") })
+		if !builds || len(lists) == 0 {
+			continue
+		}
+		n++
+		name := an.FuncName(fn)
+		c.SawFunc(name)
+		forwarded := false
+		for _, l := range lists {
+			args := l.Common().Args
+			for _, s := range an.Sources(args[len(args)-1]) {
+				if s == ssa.Value(last) {
+					forwarded = true
+				}
+			}
+		}
+		filtered := false
+		for _, r := range an.Returns(fn) {
+			for _, v := range an.Sources(r.Results[0]) {
+				if call, ok := v.(*ssa.Call); ok && strings.HasSuffix(an.CalleeName(call), "ResponseFilter).FilterClone") {
+					filtered = true
+				}
+			}
+		}
+		c.Check(!forwarded && filtered, rule, name+"|the read mask is applied to the assembled message", fn.Pos(), "",
+			fmt.Sprintf("the caller's read options are passed to Collection.List (%v) / the assembled message is not projected with the response filter (%v): the mask names fields of the assembled message (e.g. states.open_percent), applied to the items it clears them, so a masked Get is not the projection of the full Get", forwarded, !filtered))
+	}
+	c.Count("aggregate_gets", n)
+}
+
+// r1412: a forwarder that holds events back until the seed is complete must not wait for a seed that never comes:
+// the flag that opens the gate is also raised by the first event that is not a seed (an empty collection sends no
+// seed events).
+func r1412(c *an.Ctx) {
+	const rule = "R14.12"
+	n := 0
+	for _, fn := range c.Prog.FuncsIn("pkg/trait") {
+		if c.Prog.IsGenerated(fn.Pos()) || fn.Parent() == nil {
+			continue
+		}
+		loops := an.RecvLoops(fn)
+		if len(loops) == 0 {
+			continue
+		}
+		// does it look at LastSeedValue of a CollectionChange?
+		usesLast := false
+		an.Instrs(fn, func(in ssa.Instruction) {
+			if _, sn, f, ok := an.FieldOf(valueOf(in)); ok && f == "LastSeedValue" && strings.HasSuffix(sn, "pkg/resource.CollectionChange") {
+				usesLast = true
+			}
+		})
+		if !usesLast {
+			continue
+		}
+		for _, lp := range loops {
+			for _, in := range lp.Header.Instrs {
+				phi, ok := in.(*ssa.Phi)
+				if !ok {
+					continue
+				}
+				if b, isB := phi.Type().Underlying().(*types.Basic); !isB || b.Kind() != types.Bool {
+					continue
+				}
+				n++
+				name := an.FuncName(fn)
+				c.SawFunc(name)
+				// under which conditions does the flag become true?
+				raisedOnUpdate := false
+				for _, lf := range an.PhiLeaves(phi) {
+					if b, isC := an.ConstBool(lf.Val); !isC || !b {
+						continue
+					}
+					onlySeed := false
+					for _, e := range lf.Conds {
+						cond, branch := e.If.Cond, e.Branch
+						if u, isNot := cond.(*ssa.UnOp); isNot && u.Op == token.NOT {
+							cond, branch = u.X, !branch
+						}
+						if _, _, f, isF := an.FieldOf(cond); isF && f == "LastSeedValue" && branch {
+							onlySeed = true
+						}
+					}
+					if !onlySeed {
+						raisedOnUpdate = true
+					}
+				}
+				c.Check(raisedOnUpdate, rule, name+"|the gate that waits for the seed also opens without one", phi.Pos(), "",
+					"the flag that lets events through is only raised by the last seed event: a collection that is empty when the stream opens sends no seed, so no update ever reaches the subscriber")
+			}
+		}
+	}
+	c.Count("seed_gates", n)
+}
+
+func valueOf(in ssa.Instruction) ssa.Value {
+	if v, ok := in.(ssa.Value); ok {
+		return v
+	}
+	return nil
 }
